@@ -335,6 +335,7 @@ CHECKS = {
         ('teardown-api', TEARDOWN, 'teardown', 'api', 120, 2000, 140)])),
     'C05': dict(level='model_checking', invariants=INV['C05'], assumptions=ASSUME, mc=design_mc(MCINV['C05']), jobs=sched_jobs([
         ('race-api', TEARDOWN, 'race', 'api', 200, 3000, 140),
+        ('race-coowned-api', 'rolledout-handover,handover-2rev,handover-3rev', 'race', 'api', 160, 3000, 140),
         ('teardown-atomic', TEARDOWN, 'teardown', 'atomic', 80, 1000, 70)])),
     'C06': dict(level='model_checking', invariants=INV['C06'], assumptions=ASSUME, mc=design_mc(MCINV['C06']), jobs=sched_jobs([
         ('all-atomic', ROLLOUT + ',' + TEARDOWN, 'all', 'atomic', 120, 2000, 80),
